@@ -110,12 +110,15 @@ Init ==
 Mutators == {"Mkdir", "MkdirAll", "Create", "Remove", "RemoveAll", "Chmod", "Chown", "Chtimes"}
 Observers == {"Stat", "ReadFile", "List"}
 
+\* Remove/RemoveAll/Rename of the root itself are not generated: the repository treats
+\* "remove /" as wiping the filesystem, which a reference filesystem cannot mirror.
 Calls ==
-       {C(op, p, Root, "", 0) : op \in {"Mkdir", "MkdirAll", "Create", "Remove", "RemoveAll"} \cup Observers, p \in Paths}
+       {C(op, p, Root, "", 0) : op \in {"Mkdir", "MkdirAll", "Create"} \cup Observers, p \in Paths}
+  \cup {C(op, p, Root, "", 0) : op \in {"Remove", "RemoveAll"}, p \in Paths \ {Root}}
   \cup {C(op, p, Root, "", k) : op \in {"Chmod", "Chown", "Chtimes"}, p \in Paths, k \in AttrVals}
   \cup {C("WriteFile", p, Root, ch, 0) : p \in Paths, ch \in Chunks}
   \cup {C("Append", p, Root, ch, 0) : p \in {x \in Paths : x \in DOMAIN ref /\ Len(ref[x].content) < MaxContent}, ch \in Chunks}
-  \cup {C("Rename", p, q, "", 0) : p \in Paths, q \in Paths}
+  \cup {C("Rename", p, q, "", 0) : p \in Paths \ {Root}, q \in Paths \ {Root}}
 
 \* Rename can deepen a subtree beyond MaxDepth; keep the model's universe closed.
 Fits(c) == c.op = "Rename" /\ c.p \in DOMAIN ref =>
